@@ -8,7 +8,8 @@
 
 /// `evt.props().pull::<Kind>(KEY_EVT_KIND)`; a missing, unparsable or unknown kind is `None`
 pub ghost enum KindV { Span, Metric }
-/// `evt.extent()`: a point in time or a (non-empty) range
+/// `evt.extent()`: a point in time or a range; `Extent::range(ts..ts)` (zero length) and inverted
+/// ranges are ranges too (core/src/extent.rs:41)
 pub ghost enum ExtentV { Point, Range }
 
 pub ghost struct EvtView {
